@@ -42,7 +42,8 @@ Outcome(e) ==
         A == e.args
         ret == e.ret
     IN
-    IF e.ret.t \in {"missing", "nofunction", "exception"} THEN "the call did not return a value (missing export or exception)"
+    IF e.ret.t = "hang" THEN "the call into the module did not return (the Node process had to be killed)"
+    ELSE IF e.ret.t \in {"missing", "nofunction", "exception"} THEN "the call did not return a value (missing export or exception)"
     ELSE IF ~Marshals(e) THEN (IF IsErr(ret) THEN "ok" ELSE "a call with an argument of the wrong type or count is not answered with an error: string")
     ELSE CASE e.fn = "generateHOTP" ->
               LET x == GenAtCounter(Hm, A[1].s, A[2].w, AlgFromStr(A[4].s), DigitsFromStr(A[3].s)) IN
